@@ -99,6 +99,16 @@ let () =
                (match new_log s (n_of_dec_big maxnext) with
                 | Ok l -> cur_log := Some l; "r=ok"
                 | _ -> raise Go_panic)
+             | "RO", _ ->
+               (match get_st () with
+                | SRocks r ->
+                  let s' = SRocks (rs_reopen r) in
+                  let mx = (match !cur_log with Some l -> l.l_maxnext | None -> N0) in
+                  cur_log := None; cur_st := Some s';
+                  (match new_log s' mx with
+                   | Ok l -> cur_log := Some l; "r=ok"
+                   | _ -> raise Go_panic)
+                | SMem _ -> "r=n/a")
              | "SA", es :: _ ->
                (if !cur_st = None && !cur_log = None then
                   (* pre-load: the storage kind is decided by the NEW line that follows; the harness
